@@ -3,7 +3,7 @@
 From Coq Require Import List Arith Bool.
 Import ListNotations.
 From SV Require Import Model.Object Spec.ObjectSpec Proofs.ObjectProofs Proofs.ObjectThms
-  Proofs.ObjectIdem Proofs.ObjectConfig Proofs.ObjectTail Proofs.ObjectInitIdem Instances.ObjectExamples.
+  Proofs.ObjectIdem Proofs.ObjectConfig Proofs.ObjectTail Proofs.ObjectTailSim Proofs.ObjectInitIdem Instances.ObjectExamples.
 
 (** The material part of the provenance of form_factors_tilde and energy_init_source depends on the
     table list and brdf_index only through the per-wall resolution: overwritten tables and the order of
@@ -97,6 +97,32 @@ Theorem C16_final_config_state_independent (g : geo) (s s' : ostate) (src tid ns
      ocollect g (orun g s' (tail src tid ns order)) recv direct).
 Proof. exact (tail_cfg g s s' src tid ns order). Qed.
 Print Assumptions C16_final_config_state_independent.
+
+(** WIDENED (vacuity audit B).  [cfg_eq] above is Leibniz equality of the twelve configuration
+    descriptors -- kind, shape, provenance AND ownership tag.  A dictionary or file round trip changes
+    kinds (object ndarray of coordinates -> list) and ownership tags, so a restored object is never
+    [cfg_eq] to the object it was saved from: the two theorems above say nothing about histories that
+    differ by a round trip (Instances/NonVacuityB.v, [cfg_eq_is_leibniz]).  Here the hypothesis is
+    weakened to agreement of the configuration fields AFTER the normalisation [norm] of C15 (the
+    similarity "~" of an object and its restored twin); [cfg_eq s s'] implies it.  The conclusion is the
+    same for the classes; the receiver collection is compared without direct sound (the direct sound
+    reads the unserialised [_source]: finding restore_direct_sound).  Proof: [tail_cfg] composed with
+    the full bisimulation of C15 (the tail contains no direct-sound collect). *)
+Theorem C16_final_config_history_independent_sim (g : geo) (h h' : list op) (src tid ns order : nat) :
+  cfg_eq (norm (orun g (init g) h)) (norm (orun g (init g) h')) ->
+  upto_fail (tail_classes g (orun g (init g) h) (tail src tid ns order)) =
+  upto_fail (tail_classes g (orun g (init g) h') (tail src tid ns order)) /\
+  (forallb rok (tail_classes g (orun g (init g) h) (tail src tid ns order)) = true ->
+   forall recv,
+     ocollect g (orun g (init g) (h ++ tail src tid ns order)) recv false =
+     ocollect g (orun g (init g) (h' ++ tail src tid ns order)) recv false).
+Proof. exact (final_config_history_independent_sim g h h' src tid ns order). Qed.
+Print Assumptions C16_final_config_history_independent_sim.
+
+(** ... and the old hypothesis implies the new one. *)
+Theorem C16_cfg_eq_implies_normalised (s s' : ostate) : cfg_eq s s' -> cfg_eq (norm s) (norm s').
+Proof. exact (cfg_eq_norm s s'). Qed.
+Print Assumptions C16_cfg_eq_implies_normalised.
 
 (** Repeating init_source_energy with the same source leaves the state unchanged (Leibniz equality of
     all 25 attributes), for EVERY state: also when the first call installed the default BRDF, the
